@@ -33,7 +33,7 @@ CLAIMED['C01'] = dict(
     note='Trusted: Kani/CBMC; keyword list of the Rust Reference written in the harness. Not covered: the escaping itself (String::replace: not encodable, measured), path resolution, generics, derive soundness as rustc sees it, every other quote! template - i.e. most of the property.',
     ref='DESIGN.md section 3, C01')
 CLAIMED['C04'] = dict(
-    text='Kernel level: bounded model checking of the link-name decision - utils::names_will_be_identical_after_mangling equals the x86 decoration table (cdecl _name, stdcall _name@N, fastcall @name@N) for all names up to 3/7 bytes and 9 ABI cases, and the two real call-site statements (Function::codegen, Var::codegen): a binding without #[link_name] has a Rust name that decorates to the C symbol, and an emitted #[link_name] names the C symbol. The ABI feature gate is checked under C14.',
+    text='Kernel level: bounded model checking of the link-name decision - utils::names_will_be_identical_after_mangling equals the x86 decoration table (cdecl _name, stdcall _name@N, fastcall @name@N) for all names up to 3/7 bytes and 9 ABI cases, and the two real call-site statements (Function::codegen, Var::codegen): a binding without #[link_name] has a Rust name that decorates to the C symbol, and an emitted #[link_name] names the C symbol. Calling convention: the real get_abi maps every libclang CXCallingConv value to the ABI of the convention table (unknown ones stay Unknown, never silently C), and the real FunctionSig::abi applies --override-abi with its precedence and refuses ABIs the target lacks. The ABI feature gate itself is checked under C14.',
     note='Trusted: Kani/CBMC; decoration table in the harness. Not covered: argument lowering, by-value aggregates, variadics, libclang mangling, method receivers, actually calling anything.',
     ref='DESIGN.md section 3, C04')
 CLAIMED['C07'] = dict(
@@ -49,8 +49,8 @@ CLAIMED['C09'] = dict(
     note='Trusted: Kani/CBMC; stub IR. Not covered: root selection (regex crate, path strings), textual identity between runs, compiling the subset; the step-to-whole-run composition is on paper.',
     ref='DESIGN.md section 3, C09')
 CLAIMED['C10'] = dict(
-    text='The opaque path of the REAL CompInfo::codegen region emits exactly one blob of the C size and alignment and never repr(packed) next to repr(align); a helper type blocklisted as type or item is not defined; and three shared kernels: helpers::blob has exactly the requested size and alignment (all sizes <= 65536, alignments 0..64, ffi_safe/namespaces symbolic) and a plain array only where allowed; an opaque item exposes no Field/BaseMember edges and a blocklisted root is never yielded by the allowlisting traversal while its references are; a blocklisted (non-allowlisted) type derives exactly what the user vouches for (real decision closure of blocklisted_type_implements_trait inside the real derive rule).',
-    note='Trusted: Kani/CBMC; stub IR and layout stubs. Not covered: is_blocklisted / opaque_by_name (regex + paths), that use sites still name the type, layout with a user-supplied definition, the opaque path of CompInfo::codegen.',
+    text='The opaque path of the REAL CompInfo::codegen region emits exactly one blob of the C size and alignment and never repr(packed) next to repr(align); a helper type blocklisted as type or item is not defined; and three shared kernels: helpers::blob has exactly the requested size and alignment (all sizes <= 65536, alignments 0..64, ffi_safe/namespaces symbolic) and a plain array only where allowed; an opaque item exposes no Field/BaseMember edges and a blocklisted root is never yielded by the allowlisting traversal while its references are; a blocklisted (non-allowlisted) type derives exactly what the user vouches for (real decision closure of blocklisted_type_implements_trait inside the real derive rule); and the real IsOpaque impls of ItemId/Item/Type/CompInfo decide opacity exactly as: annotation, --opaque-type match, TypeKind::Opaque, reference to / instantiation of an opaque item, non-type template parameters, unevaluable bit-field width, failed field layout, or a bit-field wider than its type - and an alias or pointer to an opaque type is not itself opaque.',
+    note='Trusted: Kani/CBMC; stub IR and layout stubs. Not covered: is_blocklisted / opaque_by_name (regex + paths; a symbolic flag here), IsOpaque for TemplateInstantiation (path strings), that use sites still name the type, layout with a user-supplied definition.',
     ref='DESIGN.md section 3, C10')
 CLAIMED['C12'] = dict(
     text='Kernel level: absence of panic, overflow, out-of-range shift, index error and unwrap on None for all inputs within the bounds of the input-facing kernel RustTarget::from_str over 45 shape-parameterised strings (digits symbolic); the same automatic checks are active in every harness of every other property. Finding F3 (1.0-nightly underflow) is repaired.',
